@@ -66,13 +66,19 @@ pub(crate) fn add_contract_trivial<S: BuildHasher + Clone + 'static>(p: &LFUPoli
     if inner.costs.update(&key, cost) {
         return (None, false);
     }
-    if nd::any_bool() {
+    if unsafe { CONTRACT_ADMIT } || nd::any_bool() {
         inner.costs.increment(key, cost);
+        p.metrics.add(MetricType::CostAdd, key, cost as u64);
         (None, true)
     } else {
         (None, false)
     }
 }
+
+/// with CONTRACT_TRIVIAL: the harness established that there is room, so a new key is admitted
+/// without victims (what the real add does with room: c07_add_rule_*)
+#[cfg(kani)]
+pub(crate) static mut CONTRACT_ADMIT: bool = false;
 
 #[cfg(kani)]
 pub(crate) static mut CONTRACT_TRIVIAL: bool = false;
@@ -96,7 +102,7 @@ pub(crate) static mut ADD_OUT_KEYS: [u64; 2] = [0; 2];
 pub(crate) static mut ADD_OUT_COSTS: [i64; 2] = [0; 2];
 
 #[cfg(kani)]
-fn add_wiring(key: u64, cost: i64) -> (Option<KVec<PolicyPair>>, bool) {
+pub(crate) fn add_wiring(key: u64, cost: i64) -> (Option<KVec<PolicyPair>>, bool) {
     unsafe {
         ADD_CALLS += 1;
         ADD_KEY = key;
@@ -191,7 +197,7 @@ macro_rules! policy_harness {
 pub(crate) use policy_harness;
 
 policy_harness! {
-    [kani::unwind(6)]
+    [kani::unwind(10)]
     fn c15_worker_applies() {
         // the policy worker applies a flushed batch: every key of the batch is recorded
         let m = Arc::new(mrec::make(false));
@@ -280,7 +286,11 @@ policy_harness! {
 // ------------------------------------------------------------------------------------------------
 
 fn add_real(n_max: usize, uf: bool) {
-    let m = Arc::new(mrec::make(false));
+    add_real_m(n_max, uf, false)
+}
+
+fn add_real_m(n_max: usize, uf: bool, metrics_on: bool) {
+    let m = Arc::new(mrec::make(metrics_on));
     let (s, ents) = any_slfu(n_max);
     let used0 = ghost_sum(&ents);
     let mc = s.get_max_cost();
@@ -312,6 +322,31 @@ fn add_real(n_max: usize, uf: bool) {
     let was_resident = ghost_get(&ents, key).is_some();
     let (victims, added) = p.add(key, cost);
     let used1 = policy_used(&p);
+    if metrics_on {
+        // I-M from a zeroed recorder: the deltas of this one call
+        let gone_n = {
+            let mut n = 0u64;
+            let mut rel = 0i64;
+            let mut i = 0;
+            while i < 3 {
+                if let Some((k, c)) = ents[i] {
+                    if k != key && !p.contains(&k) {
+                        n += 1;
+                        rel += c;
+                    }
+                }
+                i += 1;
+            }
+            (n, rel)
+        };
+        vassert!(mrec::get(&p.metrics, MetricType::KeyEvict) == gone_n.0, "keys_evicted counts exactly the residents that lost their charge (a stale duplicate is not counted twice)");
+        vassert!(mrec::get(&p.metrics, MetricType::CostEvict) == gone_n.1 as u64, "cost_evicted counts exactly the released charges");
+        if added {
+            vassert!(mrec::get(&p.metrics, MetricType::CostAdd) == cost as u64, "cost_added counts the admitted cost");
+        }
+        let rejected_by_policy = !added && !was_resident && cost <= mc;
+        vassert!(mrec::get(&p.metrics, MetricType::RejectSets) == rejected_by_policy as u64, "sets_rejected counts exactly the policy's popularity rejections");
+    }
     let (sum, _n, nonneg) = policy_sum(&p);
     vassert!(used1 == sum && nonneg, "I-P: the charged total equals the sum of the per-entry charges after add");
     if cost > mc {
@@ -419,5 +454,21 @@ policy_harness! {
      kani::stub(crate::policy::TinyLFU::estimate, crate::policy::verif_harness::estuf::estimate)]
     fn c07_add_rule_n3() {
         add_real(3, true);
+    }
+}
+
+policy_harness! {
+    [kani::unwind(8),
+     kani::stub(crate::policy::TinyLFU::estimate, crate::policy::verif_harness::estuf::estimate)]
+    fn c17_add_metrics_n2() {
+        add_real_m(2, true, true);
+    }
+}
+
+policy_harness! {
+    [kani::unwind(9),
+     kani::stub(crate::policy::TinyLFU::estimate, crate::policy::verif_harness::estuf::estimate)]
+    fn c17_add_metrics_n3() {
+        add_real_m(3, true, true);
     }
 }
